@@ -78,12 +78,14 @@ ValueOf(k, e) == CASE k = "LIT"  -> <<L(k, e, 1)>>                              
                    [] k = "DEFAULTS" -> DefaultsOf(e)
 
 LaunchKeys == {"PATH", "LK", "LIT", "IMP", "DECOY", "HOME", "PYTHONPATH", "LD_LIBRARY_PATH"}
-Launch == [k \in LaunchKeys |-> <<L(k, "launch", 1)>>]
-Sys    == [k \in {"SYS"} |-> <<L(k, "system", 1)>>]
+Launch == TLCEval([k \in LaunchKeys |-> <<L(k, "launch", 1)>>])
+Sys    == TLCEval([k \in {"SYS"} |-> <<L(k, "system", 1)>>])
 PathVars == {"PATH", "PYTHONPATH", "PYTHONHOME", "LD_LIBRARY_PATH"}      \* PYTHONHOME is not in the launch environment
 
 Empty == [k \in {} |-> <<>>]
-Merge(f, g) == [k \in DOMAIN f \cup DOMAIN g |-> IF k \in DOMAIN g THEN g[k] ELSE f[k]]     \* g over f
+(* TLCEval: TLC evaluates function constructors lazily (the body again at every application); forcing them keeps *)
+(* the evaluation of the pipeline below linear                                                                      *)
+Merge(f, g) == TLCEval([k \in DOMAIN f \cup DOMAIN g |-> IF k \in DOMAIN g THEN g[k] ELSE f[k]])     \* g over f
 
 RECURSIVE SubstFrom(_, _, _)
 SubstFrom(val, m, i) == IF i > Len(val) THEN <<>>
@@ -93,7 +95,7 @@ SubstFrom(val, m, i) == IF i > Len(val) THEN <<>>
 Subst(val, m) == SubstFrom(val, m, 1)
 
 ---------------------------------------------------------------------------
-EnvFn(e) == [k \in keys[e] |-> ValueOf(k, e)]
+EnvFn(e) == TLCEval([k \in keys[e] |-> ValueOf(k, e)])
 Id(n, p) == IF n = "named" THEN (IF p = "default" THEN "named@default" ELSE "named@p1")
                            ELSE (IF p = "default" THEN "pkg@default" ELSE "pkg@p1")
 (* is environment n visible to the selected platform, and its contents: the platform's over the default platform's *)
@@ -118,13 +120,13 @@ Build(env0) ==
     LET e1  == Merge(Sys, env0)
         imp == Imported(e1)
         (* an imported name the environment does not define gets the launch value; one it defines may refer to the launch value *)
-        e2  == [k \in (DOMAIN e1 \cup imp) \ {"DEFAULTS"} |->
+        e2  == TLCEval([k \in (DOMAIN e1 \cup imp) \ {"DEFAULTS"} |->
                    IF k \in imp THEN (IF k \in DOMAIN e1 THEN Subst(e1[k], [x \in {k} |-> Launch[k]]) ELSE Launch[k])
-                                ELSE e1[k]]
-        e3  == [k \in DOMAIN e2 |-> Subst(e2[k], e2)]          \* first from the environment itself
-        e4  == [k \in DOMAIN e3 |-> Subst(e3[k], Launch)]      \* then from the launch environment
+                                ELSE e1[k]])
+        e3  == TLCEval([k \in DOMAIN e2 |-> Subst(e2[k], e2)])          \* first from the environment itself
+        e4  == TLCEval([k \in DOMAIN e3 |-> Subst(e3[k], Launch)])      \* then from the launch environment
         add == IF interp THEN (PathVars \cap DOMAIN Launch) \ DOMAIN e4 ELSE {}
-    IN  Merge([k \in add |-> Launch[k]], e4)
+    IN  Merge(TLCEval([k \in add |-> Launch[k]]), e4)
 
 Expected == IF Base.ok THEN [ok |-> TRUE, env |-> Build(Base.env)] ELSE [ok |-> FALSE, env |-> Empty]
 
